@@ -238,8 +238,8 @@ struct Args {
 // The harness publishes the case it is about to run; if the process dies by a signal
 // (assert/abort, SIGSEGV from a guard page, sanitizer abort) the handler writes it next
 // to the report so the driver can replay exactly that case.
-inline std::string &g_current_case() { static std::string s; return s; }
-inline std::string &g_crash_path() { static std::string s; return s; }
+inline std::string &g_current_case() { static std::string *s = new std::string; return *s; } // never destroyed: the handler may run during exit
+inline std::string &g_crash_path() { static std::string *s = new std::string; return *s; }
 inline void crash_handler(int sig) {
     const std::string &p = g_crash_path();
     if (!p.empty()) {
